@@ -16,7 +16,7 @@ CHARTUTIL = {"pkg": "./pkg/chart/v2/util", "files": ["pkg/chart/v2/util/h_values
 
 CHECKS = {
     "C11": {
-        "runs": [dict(pkg="./pkg/chart/v2/util", files=["pkg/chart/v2/util/h_c11_enabled.go", "pkg/chart/v2/util/h_c11_deep.go"], entries=["H11Enabled", "H11Alias", "H11Deep"], bounds_quick={"minor": 4}, bounds_thorough={"minor": 5}),
+        "runs": [dict(pkg="./pkg/chart/v2/util", files=["pkg/chart/v2/util/h_c11_enabled.go", "pkg/chart/v2/util/h_c11_deep.go", "pkg/chart/v2/util/h_c11_twice.go"], entries=["H11Enabled", "H11Alias", "H11Deep", "H11Twice"], bounds_quick={"minor": 4}, bounds_thorough={"minor": 5}),
                  dict(CHARTUTIL, entries=["H11Scope"], bounds_quick={"depth": 2, "slim": 1, "pdepth": 0}, bounds_thorough={"depth": 2, "slim": 1, "pdepth": 1})],
         "bounds": {}, "assumptions": [],
     },
@@ -123,7 +123,8 @@ CHECKS = {
             dict(STRVALS, entries=["H04SetScalar", "H04SetTyped", "H04SetNumeric", "H04SetEscapes", "H04SetList", "H04SetLiteral", "H04SetFrame"],
                  bounds_quick={"maxlen": 5, "numlen": 4}, bounds_thorough={"maxlen": 7, "numlen": 5}),
             dict(pkg="./pkg/cli/values", files=["pkg/cli/values/h_c04_flags.go"], entries=["H04Flags"], bounds_quick={"sources": 8, "modes": 3}, bounds_thorough={"sources": 8, "modes": 4}, optional_sites=["flags/m.b/highest-precedence-source"]),
-            dict(CHARTUTIL, entries=["H04Coalesce", "H11Scope"], bounds_quick={"depth": 2, "slim": 1, "pdepth": 0}, bounds_thorough={"depth": 2, "slim": 0, "pdepth": 0}),
+            dict(CHARTUTIL, entries=["H04Coalesce"], bounds_quick={"depth": 2, "slim": 1, "lists": 1}, bounds_thorough={"depth": 2, "slim": 0, "lists": 1}),
+            dict(CHARTUTIL, entries=["H11Scope"], bounds_quick={"depth": 2, "slim": 1, "pdepth": 0, "lists": 0}, bounds_thorough={"depth": 2, "slim": 1, "pdepth": 0, "lists": 1}),
         ],
         "bounds": {"quick": "atoms 1-4 symbolic bytes a-z; list index 0-3; arbitrary-input frame harness: 0-5 symbolic bytes over the 15-symbol alphabet -ay01=,.[]{}\\ and space",
                    "thorough": "same, frame harness 0-7 bytes"},
@@ -144,7 +145,7 @@ CHECKS = {
             dict(STRVALS, entries=["H04SetFrame", "H20SetTypeConfusion", "H20SetDeep"], bounds_quick={"maxlen": 5, "deeplen": 3}, bounds_thorough={"maxlen": 6, "deeplen": 5}),
             dict(REPOPKG, entries=["H18Index"], bounds_quick={"entries": 2, "shapes": 8, "maxdigit": 3}, bounds_thorough={"entries": 3, "shapes": 8, "maxdigit": 3}),
             dict(pkg="./pkg/storage/driver", files=["pkg/storage/driver/h_c10_backends.go"], entries=["H20Corrupt"]),
-            dict(pkg="./pkg/chart/v2/util", files=["pkg/chart/v2/util/h_c20_import.go"], entries=["H20Import"], bounds_quick={"entries": 1}, bounds_thorough={"entries": 2}),
+            dict(pkg="./pkg/chart/v2/util", files=["pkg/chart/v2/util/h_c20_import.go", "pkg/chart/v2/util/h_c20_deps.go"], entries=["H20Import", "H20Deps"], bounds_quick={"entries": 1, "depentries": 2}, bounds_thorough={"entries": 2, "depentries": 2}),
             dict(pkg="./pkg/storage/driver", files=["pkg/storage/driver/h_c20_decode.go"], entries=["H20Decode"], bounds_quick={"payload": 5}, bounds_thorough={"payload": 7}),
             dict(pkg="./pkg/ignore", files=["pkg/ignore/h_c15_ignore.go"], entries=["H15Ignore"], bounds_quick={"linelen": 3, "pathlen": 2}, bounds_thorough={"linelen": 4, "pathlen": 3}),
         ],
